@@ -340,8 +340,23 @@ impl Serialize for AllBalanceResponse {}
 impl Serialize for BalanceResponse {}
 impl Serialize for SupplyResponse {}
 pub trait DeserializeOwned {}
+impl<C> DeserializeOwned for QueryRequest<C> {}
 pub trait CustomMsg {}
 pub trait CustomQuery {}
+// cosmwasm_std query result envelopes (plain enums; cosmwasm-std 2.2.2 results/{system_result,contract_result}.rs, errors/system_error.rs)
+pub enum ContractResult<S> { Ok(S), Err(String) }
+pub enum SystemError { InvalidRequest { error: String, request: Binary }, Other }
+pub enum SystemResult<S> { Ok(S), Err(SystemError) }
+pub type QuerierResult = SystemResult<ContractResult<Binary>>;
+// From<Result<S, E: ToString>> for ContractResult<S>: Ok stays Ok, an error becomes its text   (rule R31: `x.into()` -> this shim)
+#[verifier::external_body]
+pub fn any_to_contract_result<S>(r: AnyResult<S>) -> (c: ContractResult<S>)
+    ensures match r { Ok(v) => c == ContractResult::<S>::Ok(v), Err(_) => c is Err }
+{ unimplemented!() }
+// From<&[u8]> for Binary
+#[verifier::external_body]
+pub fn binary_from_slice(b: &[u8]) -> (r: Binary) ensures r.b@ == b@ { unimplemented!() }
+
 // cosmwasm_std::from_json: decoding is a fixed function of the bytes (which function: serde_json, ASSUMED)
 pub uninterp spec fn spec_from_json<T>(b: Seq<u8>) -> StdResult<T>;
 #[verifier::external_body]
